@@ -387,6 +387,12 @@ impl Env {
                 if op.get("first").is_some() {
                     self.ev(json!({"ev":"peer_wrote","c":c,"m":rc::mdesc(&frames_of(&op["first"])),"with_handshake":true}));
                 }
+                if name == "attach_raw" {
+                    self.ev(json!({"ev":"peer_bytes","c":c,"n":0,"raw_handshake":true}));
+                }
+                if op.get("close").and_then(|v| v.as_bool()).unwrap_or(false) {
+                    self.ev(json!({"ev":"peer_cut","c":c,"kind":"eof"}));
+                }
                 self.attach_drive(c).await;
             }
             "attach_wait" => {
@@ -466,6 +472,16 @@ impl Env {
                 if let Some(cn) = self.conns.get(&c) {
                     cn.from_lib.max_write(k);
                 }
+            }
+            "expect_wire" => {
+                // has the library written message m (complete) on connection c so far?
+                sim::settle().await;
+                let want = frames_of(&op["m"]);
+                let ok = self.conns.get(&c).map(|k| {
+                    let p = rc::parse(&k.from_lib.tap(), true);
+                    p.items.iter().any(|it| matches!(it, rc::WItem::Message(m) if *m == want))
+                }).unwrap_or(false);
+                self.ev(json!({"ev":"expect_wire","c":c,"ok":ok,"m":rc::mdesc(&want)}));
             }
             "spurious" => {
                 if let Some(k) = self.conns.get(&c) {
